@@ -105,6 +105,7 @@ def run(ctx, deep=False):
     ctx.sample({"calculate": _hex(rnd[0])})
     _compare_validate(ctx, 20000 if thorough else 3000)
     _receive_path(ctx, thorough)
+    _damaged_repeat(ctx, thorough)
     ctx.assumptions += [
         "bytes objects are modelled as lists of naturals < 256",
     ]
@@ -326,6 +327,43 @@ def _receive_path(ctx, thorough):
             if not (v["c07a"] and v["c07c"]):
                 ctx.violation("C06:no-recovery", "after a damaged frame the client did not re-establish the connection / deliver a later intact frame (script %s)" % script,
                               kind="history", monitor="c07c", script=script, gen=gen, implementation_output=obs, spec_verdict="reconnect and deliver")
+                break
+
+
+def _damaged_repeat(ctx, thorough):
+    """the console sends an intact frame, then the same frame again with covered bytes damaged on the way (its check bytes arrive as they
+    were sent): the first is delivered, the second is not - whatever the client remembers of the first"""
+    import sockcheck
+    import frame_try
+    for gen in (4, 5):
+        real = frame_try.Real(gen)
+        covered_from = 2 if gen == 4 else 14
+        lenpos = (6, 7) if gen == 4 else (18, 19)
+        frames = _status_frames(gen)
+        scripts, meta = [], []
+        for fr in frames[: (8 if thorough else 4)]:
+            for kind, dmg in _damage(fr, covered_from, ctx.rng, thorough):
+                if dmg[-2:] != fr[-2:] or len(dmg) != len(fr) or any(dmg[i] != fr[i] for i in lenpos) or dmg == fr:
+                    continue
+                for gap in ([("turn", 1)], [("adv", 2)], []):
+                    scripts.append([("net", "accept"), ("open",), ("adv", 8), ("peerbytes", fr.hex())] + gap + [("peerbytes", dmg.hex()), ("adv", 8), ("heal",)])
+                    meta.append((kind, fr, dmg))
+        spec = ctx.oracle(["crc " + _hex(d[covered_from:-2]) for _, _, d in meta]) if meta else []
+        for (kind, fr, dmg), script, r, sp in zip(meta, scripts, sockcheck.run_scripts(scripts, gen=gen), spec):
+            if "error" in r:
+                raise RuntimeError(r["error"])
+            ctx.case(("rx-repeat", gen, fr, dmg, len(script)))
+            ctx.count("rx:damaged-repeat-of-an-intact-frame")
+            pre = []
+            for line in r["obs"]:
+                if line.startswith("heal"):
+                    break
+                if line.startswith("deliver"):
+                    pre.append(line)
+            if _hex(dmg[-2:]) != sp and len(pre) != 1:
+                ctx.violation("C06:damaged-repeat-delivered", "an intact frame %s followed by its %s-damaged repeat %s (same check bytes, which do not match the CRC-16/MODBUS of the damaged "
+                              "bytes): %d frames were delivered to subscribers before the connection was re-established" % (fr.hex(), kind, dmg.hex(), len(pre)),
+                              kind="history", monitor="c06", script=script, gen=gen, implementation_output=r["obs"], spec_verdict="exactly the intact frame is delivered")
                 break
 
 
